@@ -33,14 +33,24 @@ class C09(Prop):
                     "choices": [rng.randrange(1 << 20) for _ in range(40)]}
         else:
             edges, shape = cc.gen_graph(rng, 4, 9 if tier == "quick" else 10)
-        return {"edges": edges, "m0": rng.choice([2, 3, 3, 4, 5, 6]), "shape": shape,
-                "choices": [rng.randrange(1 << 20) for _ in range(40)]}
+        c = {"edges": edges, "m0": rng.choice([2, 3, 3, 4, 5, 6]), "shape": shape,
+             "choices": [rng.randrange(1 << 20) for _ in range(40)]}
+        if i % 5 == 2 and edges:
+            # the input names some edges twice (same or opposite orientation): the graph is the same simple graph
+            for _ in range(rng.randint(1, 3)):
+                a, b = rng.choice(edges)[:2]
+                c["edges"] = c["edges"] + [[a, b] if rng.random() < 0.5 else [b, a]]
+            c["dup_input"] = True
+        return c
 
     def impl(self, case):
         from gcmpy.covers import eecc as mod
         G = mod.EECC()
-        for e in case["edges"]:
-            G.add_edge(tuple(e))
+        if case.get("dup_input") and len(case["edges"]) % 2:
+            G.add_edges_from([tuple(e) for e in case["edges"]])
+        else:
+            for e in case["edges"]:
+                G.add_edge(tuple(e))
         G.set_max_clique_size(case["m0"])
         lmc0 = [list(c) for c in G.limited_maximal_cliques()]
         state = {"k": 0, "picks": [], "calls": 0, "ec": None, "cands": []}
@@ -75,14 +85,24 @@ class C09(Prop):
                 "candidate_set_sizes": state["cands"], "nodes": cc.nodes_of(case["edges"]),
                 "rng_unexpected": sem.summary()["n_unexpected"]}
 
+    @staticmethod
+    def _uniq(edges):
+        seen, out = set(), []
+        for e in edges:
+            k = frozenset(e)
+            if k not in seen:
+                seen.add(k)
+                out.append(list(e))
+        return out
+
     def request(self, case, obs):
         if len(cc.nodes_of(case["edges"])) > 12:
             return None          # the model's maximal cliques are a brute-force definition: large graphs are oracle-only
         if "exc" in obs:
-            return {"op": "c09", "kind": "lmc", "edges": case["edges"], "nodes": cc.nodes_of(case["edges"]), "m0": case["m0"], "picks": []}
+            return {"op": "c09", "kind": "lmc", "edges": self._uniq(case["edges"]), "nodes": cc.nodes_of(case["edges"]), "m0": case["m0"], "picks": []}
         if obs["picks"] is None:
             raise ValueError("EECC.compute_scores is gone: the sequence of picked cliques cannot be observed")
-        return {"op": "c09", "edges": case["edges"], "nodes": obs["nodes"], "m0": case["m0"], "picks": obs["picks"]}
+        return {"op": "c09", "edges": self._uniq(case["edges"]), "nodes": obs["nodes"], "m0": case["m0"], "picks": obs["picks"]}
 
     def model(self, case, reply, obs):
         if "cover" not in reply:
